@@ -18,6 +18,7 @@ EXPLANATION = (
 EXPLANATION_ADDED = '(R6) initial credit / advertised window roles (=C03.R3/R4); (R7) the handshake Acknowledge is queued before the stream is handed to the accept queue; (R8) the accept queue is sized by stream_buffer_size.'
 EXPLANATION_ADDED2 = " R7 also requires the Acknowledge's queue-send failure to be propagated before the hand-off."
 EXPLANATION = EXPLANATION + " Added while testing against seeded changes: " + EXPLANATION_ADDED + EXPLANATION_ADDED2
+EXPLANATION = EXPLANATION + ' Round 10: R8 also requires the stream-buffer and retry-count setters to store their argument.'
 ASSUMPTIONS = ["rand produces arbitrary u32 values (collisions possible); RwLock write guard is exclusive"]
 NOT_DECIDED = "simultaneous-open races between the two endpoints (interleaving dependent)"
 THOROUGH_CONFIGS = ["mux-nodefault", "mux-nohash"]
@@ -274,7 +275,7 @@ def check(facts, rep, tier, cfg):
 
     rep.rule("C07.R8", "the accept queue is a bounded queue whose capacity is the configured stream_buffer_size")
     check_capacity_role(facts, rep, crate, "C07.R8", "MuxStream", "Options.stream_buffer_size", "accept queue")
-
+    check_option_setters(facts, rep, crate, "C07.R8", ['stream_buffer_size', 'max_flow_id_retries'])
 
 
 def rules_establish_ok(facts, b, tr, site):
